@@ -14,7 +14,7 @@ def cut(text, start, end):
 body = cut(body, "(* what a loop does with the control its body returned *)", "Section Stmt.")
 body = body[:body.index("(* programs without try/catch do not consult the catch-type test *)")]
 body = body.replace("fun c vs g =>", "fun c avs g =>").replace("(fparams d) vs []", "(fparams d) avs []").replace("(cparams cd) vs []", "(cparams cd) avs []")
-for a, b in [("ieval_args", "seval_args"), ("ieval_arms", "seval_arms"), ("ieval_conds", "seval_conds"), ("ieval_each", "seval_each"),
+for a, b in [("ieval_args", "seval_args"), ("ieval_arms", "seval_arms"), ("ieval_conds", "seval_conds"), ("ieval_nargs", "seval_nargs"), ("ieval_each", "seval_each"),
              ("ieval_incs", "seval_incs"), ("icond_for", "scond_for"), ("icond", "scond"), ("ieval", "seval"), ("iexec", "sexec"),
              ("irun", "srun"), ("run_impl", "run_slots")]:
     body = re.sub(r"\b%s\b" % a, b, body)
@@ -97,7 +97,7 @@ print("written")
 P = open(os.path.join(here, "coq/C02/Proofs.v")).read()
 def sub(t):
     t = t.replace("fun c vs g =>", "fun c avs g =>").replace("(fparams d) vs []", "(fparams d) avs []").replace("(cparams cd) vs []", "(cparams cd) avs []")
-    for a, b in [("ieval_args", "seval_args"), ("ieval_arms", "seval_arms"), ("ieval_conds", "seval_conds"), ("ieval_each", "seval_each"),
+    for a, b in [("ieval_args", "seval_args"), ("ieval_arms", "seval_arms"), ("ieval_conds", "seval_conds"), ("ieval_nargs", "seval_nargs"), ("ieval_each", "seval_each"),
                  ("ieval_incs", "seval_incs"), ("icond_for", "scond_for"), ("icond", "scond"), ("ieval", "seval"), ("iexec", "sexec"),
                  ("icallf", "scallf"), ("ielif", "selif"), ("ieach", "seach"), ("irunc", "srunc"), ("icases", "scases"),
                  ("islow", "sslow")]:
